@@ -244,6 +244,17 @@ theorem naive_coset_extrapolate_spec (t : Thr) (offset : K) (codeword points : L
       out = points.map (fun x => g.eval x) :=
   naiveCosetExtrapolate_sound root hN hE t offset codeword points ω hω hprim out h
 
+/-- **Batch / parallel batch extrapolation** (`batch_coset_extrapolate`, `par_batch_coset_extrapolate` — one model,
+    the parallel iterator is order preserving): each of the `⌊|codewords| / n⌋` codewords is extrapolated as by
+    interpolate-then-evaluate and the results are concatenated in order; a trailing partial codeword is ignored.
+    Both strategies, every cut-off value; fast strategy through the Lagrange and INTT arms. -/
+theorem batch_coset_extrapolate_spec_partial (t : Thr) (hT : 2 ≤ t.zf) (offset : K) (n : Nat)
+    (codewords points : List K) (hoff : offset ≠ 0) (hsmall : n ≤ t.intt ∨ n < t.lag) (ω : K)
+    (hω : root n = some ω) (hprim : ((List.range n).map (fun i => ω ^ i)).Nodup)
+    (out : List K) (h : batchCosetExtrapolateWith FK E t offset n codewords points = some out) :
+    ∃ parts, List.Forall₂ (SliceOK offset ω n points) (codewordSlices n codewords) parts ∧ out = parts.flatten :=
+  batchCosetExtrapolateWith_sound root hN hE t hT offset n codewords points hoff hsmall ω hω hprim out h
+
 /-- `fast_modular_coset_interpolate`, Lagrange arm and INTT arm: the coset interpolant modulo the modulus. -/
 theorem fast_modular_coset_interpolate_spec_partial (t : Thr) (hT : 2 ≤ t.zf) (values : List K) (offset : K)
     (modulus : List K) (hoff : offset ≠ 0) (hsmall : values.length ≤ t.intt ∨ values.length < t.lag)
